@@ -40,14 +40,20 @@ class World:
         # positions well inside (second .. second-last cell)
         def inside(frac):
             return [float(g.origin[i] + frac[i]*g.h[i].sum()) for i in range(3)]
+        # weak sources for the unweighted misfit: residual x weight far below
+        # any absolute threshold (everything is linear in the strength)
+        st = 1e-4 if noise == 'unit' else 1.0
         stypes = [
-            emg3d.TxElectricDipole((*inside((0.35, 0.45, 0.55)), 30., 10.)),
-            emg3d.TxMagneticPoint((*inside((0.6, 0.55, 0.45)), 20., 70.)),
+            emg3d.TxElectricDipole((*inside((0.35, 0.45, 0.55)), 30., 10.),
+                                   strength=st),
+            emg3d.TxMagneticPoint((*inside((0.6, 0.55, 0.45)), 20., 70.),
+                                  strength=st),
             emg3d.TxElectricWire(np.array([inside((0.4, 0.4, 0.5)),
                                            inside((0.5, 0.45, 0.5)),
-                                           inside((0.55, 0.6, 0.55))])),
+                                           inside((0.55, 0.6, 0.55))]),
+                                 strength=st),
             emg3d.TxElectricPoint((*inside((0.5, 0.5, 0.5)), 0., 0.),
-                                  strength=2.0),
+                                  strength=2.0*st),
         ]
         order = rng.permutation(len(stypes))
         self.sources = {f'Tx-{i+1}': stypes[int(order[i])]
@@ -82,12 +88,22 @@ class World:
                   'relative_error': rng.uniform(0.02, 0.1, nd)}
         elif noise == 'relative-only':
             kw = {'relative_error': 0.03}
+        elif noise == 'unit':
+            # unweighted misfit: weights 1, residual x weight of the size of
+            # the data themselves (1e-10 .. 1e-14)
+            kw = {'noise_floor': 1.0}
         self.survey = emg3d.Survey(sources=self.sources, receivers=recs,
                                    frequencies=freqs, **kw)
         self.gridding = gridding
         self.opts = dict(gridding=gridding, max_workers=1, verb=-1,
                          tqdm_opts=False, receiver_interpolation='linear',
                          solver_opts=dict(SOLVER), name='w')
+        if noise == 'unit':
+            # SciPy's bicgstab breaks down on absolute thresholds for such
+            # weak sources (reported as an error, which C01 allows): plain
+            # multigrid has relative criteria only
+            self.opts['solver_opts'] = dict(
+                SOLVER, sslsolver=False, cycle='F', maxit=300)
         if gridding != 'same':
             self.opts['gridding_opts'] = self.gridding_opts(rng)
         # observed data from a perturbed model, with gaps
